@@ -254,15 +254,19 @@ theorem evolves_gstep (pi : Nat) (s : W × Option Bool) (st : GStep) : Evolves s
       · split
         · exact Evolves.of_pools_eq rfl
         · exact Evolves.refl _
+      · exact Evolves.refl _
+    · split
       · exact Evolves.trans (Evolves.setPool _ pi _ (fun p => good_flags p true true)) (Evolves.of_pools_eq rfl)
-      · exact Evolves.setPool _ pi _ (fun p => good_active p false)
+      · exact Evolves.refl _
+    · exact Evolves.setPool _ pi _ (fun p => good_active p false)
+    · split
+      · exact evolves_notify _ _ _
+      · exact Evolves.refl _
+    · split
       · split
-        · exact evolves_notify _ _ _
+        · exact Evolves.refl _
         · exact Evolves.refl _
       · exact Evolves.refl _
-      · split
-        · exact Evolves.refl _
-        · exact Evolves.refl _
 
 theorem evolves_runGroup (pi : Nat) : ∀ (steps : List GStep) (s : W × Option Bool),
     Evolves s.1 (steps.foldl (gstep pi) s).1
